@@ -49,6 +49,111 @@ def compare(drv, rows, twin):
                          "twin_trace": ans.get("traceB")}
 
 
+def _compile_raw(rows):
+    """real parse, BEFORE render: node objects with raw exit destinations (None / 'HARD_EXIT' / uuid)"""
+    from rpft.parsers.creation.flowparser import FlowParser
+    from rpft.rapidpro.models.containers import FlowContainer, RapidProContainer
+    from ..flows import LogCapture, table_from_rows
+
+    with LogCapture() as cap:
+        try:
+            p = FlowParser(RapidProContainer(), "flow", table_from_rows(G.HEADERS, rows))
+            fc = p.parse()
+        except BaseException as e:  # noqa: BLE001
+            if isinstance(e, (KeyboardInterrupt, SystemExit)):
+                raise
+            return None
+    if cap.errors():
+        return None
+    groups = {}
+    for rid, g in p.row_id_to_nodegroup.items():
+        tmp = FlowContainer("tmp")
+        try:
+            g.add_nodes_to_flow(tmp)
+            groups[rid] = {n.uuid for n in tmp.nodes}
+        except Exception:  # noqa: BLE001
+            pass
+    return {"nodes": fc.nodes, "groups": groups}
+
+
+def block_exit_oracle(rows):
+    """The block clause of C03 on the real compiler: an edge that names a block leaves from every
+    still-unconnected ordinary exit of the block, never from a hard exit, and touches nothing else.
+    For each row R whose single unconditional edge names a block B: compile the sheet with that edge
+    removed and with it; every exit that differs must be an exit of a node INSIDE B that led nowhere
+    (and was not a hard exit) and now leads to R's node; every such exit must have changed.
+    Returns (n_probes, violation | None, known_leak: bool)."""
+    block_ids = {r["row_id"] for r in rows if r.get("type") in ("begin_block", "begin_for") and r.get("row_id")}
+    probes = 0
+    for k, r in enumerate(rows):
+        if r.get("type") != "send_message" or r.get("from") not in block_ids or r.get("condition") or r.get("include_if"):
+            continue
+        if any(x.get("type") in ("begin_for", "begin_block") for x in rows[:k]) is False:
+            continue
+        # only top-level rows (not inside a loop body, where the row is instantiated several times)
+        depth = 0
+        for x in rows[:k]:
+            if x.get("type") in ("begin_for", "begin_block"):
+                depth += 1
+            elif x.get("type") in ("end_for", "end_block"):
+                depth -= 1
+        if depth != 0:
+            continue
+        b = r["from"]
+        without = [dict(x) for x in rows]
+        without[k]["from"] = "start"
+        a = _compile_raw(without)
+        c = _compile_raw(rows)
+        if a is None or c is None or len(a["nodes"]) != len(c["nodes"]) or b not in a["groups"]:
+            continue
+        probes += 1
+        idx = {n.uuid: i for i, n in enumerate(a["nodes"])}
+        idx2 = {n.uuid: i for i, n in enumerate(c["nodes"])}
+        inside = {idx[u] for u in a["groups"][b] if u in idx}
+        # R's node: the node present in both at the same index whose text is R's
+        target = None
+        for i, n in enumerate(c["nodes"]):
+            if n.actions and getattr(n.actions[0], "text", None) is not None and r.get("row_id") and c["groups"].get(r["row_id"]) == {n.uuid}:
+                target = i
+        if target is None:
+            continue
+        leak = False
+        for i, (n1, n2) in enumerate(zip(a["nodes"], c["nodes"])):
+            e1, e2 = n1.get_exits(), n2.get_exits()
+            if len(e1) != len(e2):
+                return probes, {"what": "an unconditional edge from a block changed the exits of a node", "row": k, "node": i}, leak
+            for j, (x, y) in enumerate(zip(e1, e2)):
+                d1 = x.destination_uuid
+                d2 = y.destination_uuid
+                m1 = d1 if d1 in (None, "HARD_EXIT") else idx.get(d1)
+                m2 = d2 if d2 in (None, "HARD_EXIT") else idx2.get(d2)
+                loose_inside = i in inside and d1 is None
+                if loose_inside:
+                    if m2 != target:
+                        return probes, {"what": "an edge that names a block does not leave from one of its still-unconnected ordinary exits",
+                                        "block": b, "edge_row": k, "node_index": i, "exit_index": j, "now_leads_to": m2, "expected_node_index": target}, leak
+                elif m1 != m2:
+                    if d1 == "HARD_EXIT":
+                        return probes, {"what": "an edge that names a block leaves from a hard exit", "block": b, "edge_row": k, "node_index": i}, leak
+                    if i not in inside and d1 is None and m2 == target:
+                        leak = True     # F-C03-a: exits of rows leading INTO the block get connected as well
+                    else:
+                        return probes, {"what": "an edge that names a block changed an exit that does not belong to the block's unconnected exits",
+                                        "block": b, "edge_row": k, "node_index": i, "exit_index": j, "before": m1, "after": m2}, leak
+        if leak:
+            return probes, None, True
+    return probes, None, False
+
+
+F_C03_A = [
+    {"row_id": "w", "type": "wait_for_response", "from": "start"},
+    {"row_id": "B", "type": "begin_block", "from": "w", "condition": "yes"},
+    {"row_id": "x", "type": "send_message", "from": "", "message_text": "in block"},
+    {"row_id": "", "type": "end_block"},
+    {"row_id": "R", "type": "send_message", "from": "B", "message_text": "after the block"},
+]
+
+
 def after_loop_probe(rng, rows):
     """append a row that mentions a loop variable after its end_for (scope check: it must be
     instantiated in a context where the variable is gone — the twin evaluates it that way)"""
@@ -78,9 +183,13 @@ def worker(args):
         stats[k] = stats.get(k, 0) + v
 
     for _ in range(n):
-        rows = S.gen_sugar_sheet(rng, rng.randint(3, maxrows))
-        if rng.random() < 0.3:
-            rows = after_loop_probe(rng, rows)
+        if rng.random() < 0.25:
+            rows = S.gen_block_exit_sheet(rng)
+            bump("block_exit_sheets")
+        else:
+            rows = S.gen_sugar_sheet(rng, rng.randint(3, maxrows))
+            if rng.random() < 0.3:
+                rows = after_loop_probe(rng, rows)
         try:
             twin = S.desugar(rows)
         except S.DesugarRenderError as e:
@@ -99,6 +208,14 @@ def worker(args):
             continue
         verdict, detail = compare(drv, rows, twin)
         bump(verdict)
+        # block clause of the statement, on the real compiler (with / without the edge that names a block)
+        nprobe, bviol, leak = block_exit_oracle(rows)
+        bump("block_exit_probes", nprobe)
+        if leak:
+            bump("block_exit_known_leak_F-C03-a")
+        if bviol is not None:
+            bump("violation")
+            bad.append({"rows": rows, "detail": bviol, "noshrink": True})
         # T2: the Lean model of the parser's block structure (Rpft/Sugar.lean evItems) vs the traced real parser
         tres, treal, ttable = compile_tie.trace_structure(G.HEADERS, rows)
         tv, td = compile_tie.compare_structure(drv, rows, tres, treal, ttable)
@@ -221,6 +338,13 @@ def run(ck: core.Check):
     ck.assumptions = ["the desugarer substitutes loop variables with the repo's own template engine (cell level)"]
     ck.partial_gap = ["NodeGroup exit semantics (which exits an edge naming a block connects) are not modelled in Lean; they are compared on the real code (sugared vs twin use the same block primitive)"]
     drv = core.Driver()
+    # known-finding stream (deterministic): F-C03-a
+    nprobe, bviol, leak = block_exit_oracle(F_C03_A)
+    if leak and bviol is None:
+        ck.known("F-C03-a", "an edge naming a block also connects the still-unconnected exits of rows leading INTO the block (the begin row is kept as a no_op inside the block)",
+                 {"csv": rows_to_csv(G.HEADERS, F_C03_A)})
+    elif bviol is not None:
+        ck.violation("known-finding input fails differently: " + bviol["what"], {"rows": F_C03_A, "detail": bviol})
     n_total = 640 if quick else 12000
     maxrows = 14 if quick else 30
     nshards = par.NPROC * (1 if quick else 4)
@@ -237,6 +361,9 @@ def run(ck: core.Check):
         for t in r["ties"]:
             ck.tie_break("Lean model of the parser's block structure and the real _parse_block perform different events", t)
         for b in r["bad"]:
+            if b.get("noshrink"):
+                ck.violation(b["detail"]["what"], {"sugared_csv": rows_to_csv(G.HEADERS, b["rows"]), "rows": b["rows"], "detail": b["detail"]})
+                continue
             if len(ck.violations) >= 2:
                 ck.violation(b["detail"].get("what", "sugared and desugared differ") + " (not shrunk)", {"rows": b["rows"], "detail": b["detail"], "pad": "#" * 4000})
                 continue
